@@ -98,6 +98,41 @@ impl Relay {
     }
 }
 
+/// 0 = one cut per outage. Otherwise every outage is a *double* cut: the connection is closed, and closed again this many
+/// milliseconds later, i.e. while the stream under test is in the middle of re-establishing itself (the hook waits for
+/// the client's connection mutex, which the reconnecting stream holds during its handshake, so the second cut lands
+/// right behind it: after the new connection is up and the registration was sent, before its answer was read)
+static SECOND_CUT_MS: AtomicU64 = AtomicU64::new(0);
+/// end of the current volley of cuts, in ms since `T0` (0 = none): what happens before it is part of the outage
+static VOLLEY_END: AtomicU64 = AtomicU64::new(0);
+static T0: std::sync::OnceLock<Instant> = std::sync::OnceLock::new();
+
+fn now_ms() -> u64 {
+    T0.get_or_init(Instant::now).elapsed().as_millis() as u64
+}
+
+fn volley_active() -> bool {
+    now_ms() < VOLLEY_END.load(Ordering::SeqCst)
+}
+
+async fn cut(client: &selium::Client) {
+    client.verif_close_connection().await;
+    let d = SECOND_CUT_MS.load(Ordering::SeqCst);
+    if d > 0 {
+        VOLLEY_END.store(now_ms() + d + 80, Ordering::SeqCst);
+        let c2 = client.clone();
+        tokio::spawn(async move {
+            // a short volley of cuts around the moment the stream reconnects: a cut requested while the reconnecting
+            // stream holds the connection mutex lands right behind its handshake
+            tokio::time::sleep(Duration::from_millis(d.saturating_sub(8))).await;
+            for _ in 0..12 {
+                c2.verif_close_connection().await;
+                tokio::time::sleep(Duration::from_millis(2)).await;
+            }
+        });
+    }
+}
+
 fn backoff(kind: usize, attempts: u32, step_ms: u64) -> BackoffStrategy {
     let b = match kind % 3 {
         0 => BackoffStrategy::constant(),
@@ -209,7 +244,7 @@ async fn publisher_recovers_t(addr: SocketAddr, certs: &Certs, bo: BackoffStrate
             wait_for(&mut sub, &item, Duration::from_secs(10)).await.map_err(|e| V("publisher/lost-while-connected".into(), format!("outage {}: {}", o, e)))?;
             delivered += 1;
         }
-        cp.verif_close_connection().await;
+        cut(&cp).await;
         // the first send after the cut may lose its item; it must come back Ok once the stream is re-established
         let mut first_ok = false;
         let t_cut = Instant::now();
@@ -373,7 +408,7 @@ async fn subscriber_recovers(addr: SocketAddr, certs: &Certs, bo: BackoffStrateg
                 Err(_) => return Err(inc("steady publisher stalled".into())),
             }
         }
-        cs.verif_close_connection().await;
+        cut(&cs).await;
         // items already buffered locally may still be yielded; then the stream must resume with a gap-free run
         let t0 = Instant::now();
         let mut run: Vec<u64> = vec![];
@@ -564,7 +599,23 @@ async fn requestor_recovers_t(addr: SocketAddr, certs: &Certs, bo: BackoffStrate
         return Err(inc("precondition not reached: no request was answered before the first cut".into()));
     }
     for o in 0..outages {
-        cr.verif_close_connection().await;
+        cut(&cr).await;
+        // while a volley of cuts is under way every call is a "first call after a cut": it may fail, but not with
+        // too-many-retries, and it must return
+        while volley_active() {
+            n += 1;
+            match tokio::time::timeout(Duration::from_secs(40), rq.request(format!("volley-{}-{}", o, n))).await {
+                Err(_) => {
+                    echo.abort();
+                    return Err(V("requestor/hangs-after-cut".into(), format!("outage #{}: request() did not return within 40 s", o + 1)));
+                }
+                Ok(Err(e)) if is_too_many(&e) => {
+                    echo.abort();
+                    return Err(V("requestor/gave-up-although-server-reachable".into(), format!("outage #{} (of {}): request() reported too-many-retries although the server was reachable", o + 1, outages)));
+                }
+                _ => {}
+            }
+        }
         // at most the first call after a cut may fail
         n += 1;
         let first = tokio::time::timeout(Duration::from_secs(40), rq.request(format!("cut-{}-{}", o, n))).await;
@@ -765,7 +816,7 @@ async fn replier_recovers(addr: SocketAddr, certs: &Certs, bo: BackoffStrategy, 
         return Err(inc("precondition not reached: the replier never answered".into()));
     }
     for o in 0..outages {
-        cl.verif_close_connection().await;
+        cut(&cl).await;
         // requests are re-sent until one is answered again
         let t0 = Instant::now();
         let mut back = false;
@@ -1415,6 +1466,32 @@ pub fn run(rep: &mut StageReport, tier: &str, _seed: u64) {
                 Err(_) => Err(V("INCONCLUSIVE".into(), "watchdog: scenario did not finish in 400 s".into())),
             };
             out.push(("recovery/requestor-short-timeout".to_string(), cfg, r));
+        }
+        // double cuts: the second cut hits the stream while it re-establishes itself (5 attempts of 100 ms: plenty)
+        for (k, delay) in (if thorough { vec![1u64, 60, 95, 100, 105, 130, 200] } else { vec![100u64, 105] }).into_iter().enumerate() {
+            for role in 1..4usize {
+                if !thorough && (k + role) % 2 == 0 {
+                    continue;
+                }
+                let bo = BackoffStrategy::constant().with_max_attempts(5).with_step(Duration::from_millis(100));
+                let role_name = ["publisher", "subscriber", "requestor", "replier"][role];
+                let cfg = json!({"role": role_name, "backoff": "constant 100 ms", "max_attempts": 5, "outages": 3, "second_cut_after_ms": delay});
+                SECOND_CUT_MS.store(delay, Ordering::SeqCst);
+                let fut = async {
+                    match role {
+                        1 => subscriber_recovers(server.addr, &certs.0, bo, 3, 300 + (k * 4 + role) as u64).await,
+                        2 => requestor_recovers(server.addr, &certs.0, bo, 3, 300 + (k * 4 + role) as u64).await,
+                        _ => replier_recovers(server.addr, &certs.0, bo, 3, 300 + (k * 4 + role) as u64).await,
+                    }
+                };
+                let r = match tokio::time::timeout(Duration::from_secs(400), fut).await {
+                    Ok(r) => r,
+                    Err(_) => Err(V("INCONCLUSIVE".into(), "watchdog: double-cut scenario did not finish in 400 s".into())),
+                };
+                SECOND_CUT_MS.store(0, Ordering::SeqCst);
+                let r = r.map_err(|V(sig, d)| if sig == "INCONCLUSIVE" { V(sig, d) } else { V(format!("{}/cut-again-while-re-establishing", sig), d) });
+                out.push((format!("recovery/{}-double-cut", role_name), cfg, r));
+            }
         }
         // several subscribers on one client lose their shared connection together; single-attempt budgets
         for (k, (n_subs, attempts, step, outages)) in [(3usize, 1u32, 200u64, 2usize), (5, 1, 20, 3), (4, 2, 5, 3)].into_iter().enumerate() {
